@@ -4,6 +4,9 @@
      hash <content> <hash>            -> ok
      reset                            -> ok
      put <id> <tm> <seek1> <ok1> <pass1> <seek2> <chunk>*   -> PUTOK out size | PUTFAILED out size | PUTERR
+     putf <k> <kind> <j> <id> <tm> <seek1> <ok1> <pass1> <seek2> <chunk>*
+                                      -> DONE PUTOK out size | DONE PUTFAILED out size | DONE PUTERR | STOPPED,
+                                         then " | " and the operations performed (faulty semantics; k < 0: no fault)
      get <id>                         -> NF | F out size tm   (numbers: 0 | +<binary> | -<binary>)
      getbytes <id>                    -> NF | F data out size tm
      getfile <id>                     -> NF | F name out size tm
@@ -73,6 +76,36 @@ let handle = function
        | PutErrEarly -> "PUTERR"
        | PutFailed (out, size) -> ignore (path_of "d" (hex_of_bytes out)); Printf.sprintf "PUTFAILED %s %d" (hex_of_bytes out) (int_of_nat size)
        | PutOk (out, size) -> ignore (path_of "d" (hex_of_bytes out)); Printf.sprintf "PUTOK %s %d" (hex_of_bytes out) (int_of_nat size))
+  | "putf" :: k :: kind :: j :: id :: tm :: seek1 :: ok1 :: pass1 :: seek2 :: chunks ->
+      let rd = { rd_seek1 = bool_of seek1; rd_pass1 = arg pass1; rd_ok1 = bool_of ok1;
+                 rd_seek2 = bool_of seek2; rd_pass2 = List.map arg chunks } in
+      ignore (path_of "a" id);
+      let jn = nat_of_int (int_of_string j) in
+      let fk = match kind with
+        | "fail" -> FFail | "short" -> FShort jn | "stopbefore" -> FStopBefore
+        | "stopafter" -> FStopAfter | "torn" -> FTorn jn | _ -> failwith "bad kind" in
+      let b = if int_of_string k < 0 then None else Some (nat_of_int (int_of_string k), fk) in
+      let p = put_prog h (bytes_of_hex id) rd (z_of_int (int_of_string tm)) in
+      let tr = trace_f b p !store in
+      let ((fs', oc), _) = run_f b p !store in
+      store := fs';
+      let kind_of = function IdxP _ -> "a" | DatP o -> ignore (path_of "d" (hex_of_bytes o)); "d" in
+      let show_op = function
+        | OStat p -> "stat:" ^ kind_of p
+        | OOpen (p, c, t) -> "open:" ^ kind_of p ^ ":" ^ (if c then "c" else "") ^ (if t then "t" else "")
+        | ORead (p, off, n) -> Printf.sprintf "read:%s:%d:%d" (kind_of p) (int_of_nat off) (int_of_nat n)
+        | OReadAll p -> "readall:" ^ kind_of p
+        | OWrite (p, off, b) -> Printf.sprintf "write:%s:%d:%d" (kind_of p) (int_of_nat off) (List.length b)
+        | OTruncate (p, n) -> Printf.sprintf "truncate:%s:%d" (kind_of p) (int_of_nat n)
+        | OClose p -> "close:" ^ kind_of p
+        | ORemove p -> "remove:" ^ kind_of p
+        | OChtimes p -> "chtimes:" ^ kind_of p in
+      let res = match oc with
+        | Stopped -> "STOPPED"
+        | Done PutErrEarly -> "DONE PUTERR"
+        | Done (PutFailed (out, size)) -> Printf.sprintf "DONE PUTFAILED %s %d" (hex_of_bytes out) (int_of_nat size)
+        | Done (PutOk (out, size)) -> Printf.sprintf "DONE PUTOK %s %d" (hex_of_bytes out) (int_of_nat size) in
+      res ^ " | " ^ String.concat " " (List.map show_op tr)
   | ["get"; id] -> show_entry (get !store (bytes_of_hex id))
   | ["getbytes"; id] ->
       (match get_bytes h !store (bytes_of_hex id) with
